@@ -39,7 +39,10 @@ RULE = (
     "exists, the judgement is defined and the forward map moves a probe by > 1e-3; plus amplitude-pair order tests of the velocity models "
     "and ExpFlow on larger grids; plus the `layout` sub-check: invertible transforms built from transposed / step-sliced / stride-0 expanded / "
     "channels-last parameter tensors (constructor and data_()), inverted in three forms and evaluated on non-contiguous point sets, must equal "
-    "the contiguous build, still invert (linear models), raise nothing and leave the supplied tensors unchanged"
+    "the contiguous build, still invert (linear models), raise nothing and leave the supplied tensors unchanged; plus the `chain` sub-check: "
+    "every chain of 2 and 3 inverse-making steps over {.inv, inverse(link=True), inverse()} (36 chains) for every class x D x {Parameter, fixed "
+    "tensor}: the last two links are an inverse pair in both orders, the chain end is the same map as t (even length) or a fresh t.inverse() "
+    "(odd length), and for all-linking chains both still hold after an in-place edit of the forward parameters"
 )
 EXPLANATION = "bounded explicit-state exploration of (transform, inverse) pairs sharing parameters; inv o t = t o inv = id after every history"
 ASSUMPTIONS = [
@@ -55,7 +58,7 @@ ASSUMPTIONS = [
 ]
 MIN_NONTRIVIAL = {"quick": 2000, "thorough": 12000}
 MIN_OUTCOMES = {"quick": 900, "thorough": 2500}
-MIN_SUB_TRACES = {"history": 3000, "order": 30, "expflow": 24, "layout": 80}
+MIN_SUB_TRACES = {"history": 3000, "order": 30, "expflow": 24, "layout": 80, "chain": 1200}
 
 EPS32 = 2.0 ** -23
 C = 64.0
@@ -293,6 +296,7 @@ def bounds(tier):
     return {
         "configurations": len(cf),
         "alphabet": list(OPS),
+        "inverse_chains": {"steps": list(CHAIN_STEPS), "lengths": [2, 3], "cases": len(chain_cases(tier, 0))},
         "depth_linear": {k: depth_of({"vel": False, "kind": k}, tier) for k in ("param", "buffer", "callable")},
         "depth_velocity(SVF, SVFFD)": {k: depth_of({"vel": True, "kind": k, "desc": {"cls": VELOCITY[0]}}, tier) for k in ("param", "buffer", "callable")},
         "depth_velocity_composites": {k: depth_of({"vel": True, "kind": k, "desc": {"cls": "Sequential"}}, tier) for k in ("param", "buffer", "callable")},
@@ -1362,6 +1366,104 @@ def run_layout(case, acc: Acc = None):
     return out
 
 
+
+# ---------------------------------------------------------------------------
+# chains of inverses: inverse of an inverse (of an inverse), every mix of the three ways to obtain one
+CHAIN_STEPS = ("inv_prop", "inv_link", "inv")
+
+
+def _chain_step(o, step: str):
+    if step == "inv_prop":
+        return o.inv
+    if step == "inv_link":
+        return o.inverse(link=True)
+    return o.inverse()
+
+
+def chain_cases(tier: str, seed: int):
+    import itertools
+
+    out = []
+    for i, cfg in enumerate(configs(tier, seed)):
+        if cfg["kind"] not in ("param", "buffer") or cfg.get("mirror") or cfg["N"] != 1 or not cfg["ac"]:
+            continue
+        for k in (2, 3):
+            for steps in itertools.product(CHAIN_STEPS, repeat=k):
+                out.append({"sub": "chain", "cfg": i, "tier": tier, "seed": seed, "steps": list(steps), "lab": f"{label(cfg['desc'])}/D{cfg['D']}/{cfg['kind']}"})
+    return out
+
+
+def run_chain(case, acc: Acc = None):
+    """c_0 = t, c_i = step_i(c_{i-1}).  Judged: (c_{k-1}, c_k) is an inverse pair in both orders; c_k is the same map as
+    t (k even) or as a fresh t.inverse() (k odd); when every step links, both still hold after an in-place edit of the
+    forward parameters (the chain shares them)."""
+    out = []
+    cfg = configs(case["tier"], case["seed"])[case["cfg"]]
+    steps = case["steps"]
+    where = f"{family(cfg['desc'])}/{'.'.join(steps)}/{label(cfg['desc'])}/kind={cfg['kind']}"
+    sysm = System(cfg)
+    t0 = sysm.t
+
+    def build():
+        chain = [t0]
+        for st_ in steps:
+            chain.append(_chain_step(chain[-1], st_))
+        return chain
+
+    st, chain = guarded(build)
+    if acc is not None:
+        acc.trans(len(steps))
+    if st == "raises":
+        out.append((f"C07/chain/{where}/construct/{raises_kind(chain)}", exc_text(chain)))
+        return out
+    linked = all(s_ != "inv" for s_ in steps)
+
+    def observe(tag):
+        if cfg["vel"]:
+            guarded(lambda: t0(_tensor(sysm.probe())))  # fills the buffers velocity_amplitude() reads (members of t0; copies hold equal values)
+        sysm.t, sysm.inv = chain[-2], chain[-1]
+        sysm.has_inv, sysm.link, sysm.defined, sysm.inv_invalid = True, steps[-1] != "inv", True, False
+        st1, obs = guarded(sysm.evaluate_call)
+        sysm.t = t0
+        if acc is not None:
+            acc.trans(4)
+        if st1 == "raises":
+            out.append((f"C07/chain/{where}/{tag}/call/{raises_kind(obs)}", exc_text(obs)))
+            return None
+        probs, nt = sysm.judge_call(obs, both=True)
+        for kind, detail in probs:
+            out.append((f"C07/chain/{where}/{tag}/{kind}", detail))
+        # the end of the chain is the same map as t (even length) or as a fresh inverse of t (odd length)
+        x = _tensor(sysm.probe())
+        st2, pair = guarded(lambda: (chain[-1](x), (t0 if len(steps) % 2 == 0 else t0.inverse())(x)))
+        if acc is not None:
+            acc.trans(2)
+        if st2 == "raises":
+            out.append((f"C07/chain/{where}/{tag}/same-map/{raises_kind(pair)}", exc_text(pair)))
+            return None
+        a, b = (v.detach().double().numpy() for v in pair)
+        tol = C * EPS32 * COND_BOUND * max(1.0, float(np.abs(b).max()))
+        if a.shape != b.shape or not np.all(np.isfinite(a)) or float(np.abs(a - b).max()) > tol:
+            e = float(np.abs(a - b).max()) if a.shape == b.shape else float("nan")
+            out.append((f"C07/chain/{where}/{tag}/same-map/differs", f"chain end vs {'t' if len(steps) % 2 == 0 else 't.inverse()'}: max |diff| {e:.3e} > tol {tol:.2e}"))
+        if acc is not None:
+            acc.outcome("chain", where, tag, obs["bytes"])
+            if nt:
+                acc.nontriv("chain", where, tag)
+        return obs
+
+    observe("fresh")
+    if linked and not out:
+        st3, r3 = guarded(sysm.apply, "edit_add")
+        if st3 == "raises":
+            out.append((f"C07/chain/{where}/edit/{raises_kind(r3)}", exc_text(r3)))
+        else:
+            observe("after-edit")
+    if acc is not None:
+        acc.trace("chain", depth=len(steps))
+        acc.state("chain", where)
+    return out
+
 # ---------------------------------------------------------------------------
 def shards(tier: str, seed: int):
     out = []
@@ -1384,6 +1486,9 @@ def shards(tier: str, seed: int):
     ec = expflow_cases(tier, seed)
     for i in range(0, len(ec), 6):
         out.append({"tier": tier, "seed": seed, "sub": "expflow", "lo": i, "hi": min(i + 6, len(ec))})
+    nc = len(chain_cases(tier, seed))
+    for i in range(0, nc, 72):
+        out.append({"tier": tier, "seed": seed, "sub": "chain", "lo": i, "hi": min(i + 72, nc)})
     nl = len(layout_cases(tier, seed))
     for i in range(0, nl, 32):
         out.append({"tier": tier, "seed": seed, "sub": "layout", "lo": i, "hi": min(i + 32, nl)})
@@ -1401,8 +1506,8 @@ def run_shard(shard) -> Acc:
             if st == "raises":
                 acc.violation(f"C07/harness/{family(cfg['desc'])}/raises={type(r).__name__}/{label(cfg['desc'])}", {"cfg": cfg, "hist": [first], "harness": True}, exc_text(r), size=1)
         return acc
-    cases = {"order": order_cases, "expflow": expflow_cases, "layout": layout_cases}[shard["sub"]](tier, seed)
-    fn = {"order": run_order, "expflow": run_expflow, "layout": run_layout}[shard["sub"]]
+    cases = {"order": order_cases, "expflow": expflow_cases, "layout": layout_cases, "chain": chain_cases}[shard["sub"]](tier, seed)
+    fn = {"order": run_order, "expflow": run_expflow, "layout": run_layout, "chain": run_chain}[shard["sub"]]
     for case in cases[shard["lo"]: shard["hi"]]:
         st, r = guarded(fn, case, acc)
         if st == "raises":
@@ -1418,7 +1523,7 @@ def run_shard(shard) -> Acc:
 def replay(case):
     if "case" in case:
         c = case["case"]
-        fn = {"order": run_order, "expflow": run_expflow, "layout": run_layout}[c["sub"]]
+        fn = {"order": run_order, "expflow": run_expflow, "layout": run_layout, "chain": run_chain}[c["sub"]]
         st, r = guarded(fn, c, None)
         if st == "raises":
             return [(f"C07/harness/{c['sub']}/raises={type(r).__name__}", exc_text(r))]
